@@ -342,6 +342,52 @@ def correspondence(ctx):
                 ctx.sample({"what": "BEC2", "blocks": [list(b) for b in blocks], "key": key,
                             "binary": tb[1][:80] if tb[0] == "ok" else tb[1]})
 
+
+        # (e) object histories: the model is stateless, so every later write of the same object
+        #     must equal the model's output for the object's CURRENT fields
+        from bec2format.bf3file import Bf3File
+        for i in range(ctx.budget(30, 500) * scale):
+            framing = "bec2" if i % 2 else "bf3"
+            h = gen_history(r, framing)
+            key = h["key"]
+            f = B.build(h["comments"], [tuple(x) for x in h["comps"]])
+            blocks, pair = None, None
+            if framing == "bec2":
+                blocks = [("cust", h["wkey"], h["ck"], 0), ("update", h["code"], h["version"])]
+                shacode(h["code"])
+                pair = build_bec2(f, blocks, key)
+            for n, op in enumerate([None] + [tuple(o) for o in h["ops"]], 1):
+                what = apply_op(f, op) if op else None
+                if what and what[0] == "skip":
+                    continue
+                if what and what[0] == "key":
+                    key = what[1]
+                    if pair is not None:
+                        pair[0].session_key = key
+                if what and what[0] == "otherfile":
+                    f2 = Bf3File({"Creator": "second"}, [what[1]])
+                    w2 = B.impl_write(f2, what[2])
+                    add("res_eqb str_eqb (write_file toy_enc toy_mac %s %s) %s" % (
+                        B.qbf3_obj(f2), qbytes(what[2]), qres(w2, B.qstr)),
+                        "history: same component object in a second file", h, n)
+                    ctx.case(("e2", i, n))
+                if pair is not None:
+                    def go2():
+                        s_ = io.StringIO()
+                        pair[0].write_file(s_, pair[1])
+                        return s_.getvalue()
+                    w = run_impl(go2)
+                    add("res_eqb str_eqb (bec2_write_file toy_enc toy_mac sha_tab %s %s %s) %s" % (
+                        qlist([qablock(b) for b in blocks], "ablock"), B.qbf3_obj(f), qbytes(key), qres(w, B.qstr)),
+                        "history: Bec2File.write_file #%d after %s" % (n, op[0] if op else "creation"), h, n)
+                else:
+                    w = B.impl_write(f, key)
+                    add("res_eqb str_eqb (write_file toy_enc toy_mac %s %s) %s" % (
+                        B.qbf3_obj(f), qbytes(key), qres(w, B.qstr)),
+                        "history: write_file #%d after %s" % (n, op[0] if op else "creation"), h, n)
+                ctx.case(("e", i, n, repr(h)))
+                ctx.dist["e:%s/%s" % (framing, op[0] if op else "first")] += 1
+
     # (d) cipher missing / failing / strict: result and output trace (stream: the write() calls;
     #     path: created?, content)
     kinds = ["toy", "unreg", "enc_raises", "mac_raises", "late", "strict"]
@@ -531,8 +577,6 @@ def run_case(c):
     (tags, blob, alen, enc)), cfg (None or a configuration dictionary applied with set_config),
     key, comments, state (plug-in state), sink ('stream'|'path'), wkey/ck/code/version (BEC2),
     scan (bool).  Returns None or (kind, detail)."""
-    from bec2format.bf3file import Bf3File
-    from bec2format.bec2file import Bec2File, ConfigSecurityCodeEncryptor
     key, state = c["key"], c.get("state", "registered")
     comps = [tuple(x) for x in c["comps"]]
     with registered_cls(real_variant(state, key)):
@@ -543,109 +587,257 @@ def run_case(c):
             last = f.components[-1]
             if last.encrypt_by_session_key is not True or last.description.get(0xC2) != b"\x02":
                 return ("config-not-encrypted", "set_config created %r" % (last,))
-        # what the caller handed in, component by component
-        want = [(dict(x.description), bytes(x.blob), x.actual_len, bool(x.encrypt_by_session_key)) for x in f.components]
-        if c["framing"] == "bec2":
+        return _check_file(f, c, key, state)
+
+
+def _check_file(f, c, key, state="registered", bec2pair=None):
+    """write the object f (as it is NOW) in the framing of c, check the stored payloads against
+    the CURRENT content of its components, read back.  Call inside registered_cls(...)."""
+    from bec2format.bf3file import Bf3File
+    from bec2format.bec2file import Bec2File, ConfigSecurityCodeEncryptor
+    # what the caller handed in, component by component
+    want = [(dict(x.description), bytes(x.blob), x.actual_len, bool(x.encrypt_by_session_key)) for x in f.components]
+    if c["framing"] == "bec2":
+        if bec2pair is None:
             blocks = [("cust", c["wkey"], c["ck"], 0), ("update", c["code"], c["version"])]
-            bec2, exts = build_bec2(f, blocks, key)
-            writer = lambda sink: bec2.write_file(sink, exts)    # noqa
-        else:
-            writer = lambda sink: f.write_file(sink, key)        # noqa
-        if c.get("sink", "stream") == "path":
-            res, created, text = obs_path(writer)
-            text = text.replace("\r\n", "\n")
-            emitted = created and text != ""
-            nwrites = None
-        else:
-            s = RecStream()
-            res = run_impl(lambda: writer(s))
-            text = "".join(s.writes)
-            emitted = bool(s.writes)
-            created = None
-            nwrites = len(s.writes)
-        anyenc = any(w[3] for w in want)
-        bec2_ = c["framing"] == "bec2"
-        must_fail = ((state == "unreg" and (bool(want) or bec2_)) or (state == "enc_raises" and (anyenc or bec2_)) or
-                     (state == "mac_raises" and bool(want)) or (state == "late" and anyenc))
-        if must_fail:
-            # the cipher is missing or fails on a call the writer has to make
-            if res[0] == "ok":
-                why = "writing succeeded although the cipher is %s" % state
-                leak = None
-                try:
-                    leak = scan(text, text_binary(text), [n for w in want if w[3] for n in needles_of(w[1], "plaintext")])
-                except Exception:   # noqa
-                    pass
-                return ("fail-open", why + ("; " + leak if leak else "") + "; output starts " + repr(text[:80]))
-            if emitted or created:
-                return ("fail-open", "writing raised %s but output was produced: created=%r writes=%r text=%r" % (
-                    res[1], created, nwrites, text[:80]))
+            bec2pair = build_bec2(f, blocks, key)
+        bec2, exts = bec2pair
+        writer = lambda sink: bec2.write_file(sink, exts)    # noqa
+    else:
+        writer = lambda sink: f.write_file(sink, key)        # noqa
+    if c.get("sink", "stream") == "path":
+        res, created, text = obs_path(writer)
+        text = text.replace("\r\n", "\n")
+        emitted = created and text != ""
+        nwrites = None
+    else:
+        s = RecStream()
+        res = run_impl(lambda: writer(s))
+        text = "".join(s.writes)
+        emitted = bool(s.writes)
+        created = None
+        nwrites = len(s.writes)
+    anyenc = any(w[3] for w in want)
+    bec2_ = c["framing"] == "bec2"
+    must_fail = ((state == "unreg" and (bool(want) or bec2_)) or (state == "enc_raises" and (anyenc or bec2_)) or
+                 (state == "mac_raises" and bool(want)) or (state == "late" and anyenc))
+    if must_fail:
+        # the cipher is missing or fails on a call the writer has to make
+        if res[0] == "ok":
+            why = "writing succeeded although the cipher is %s" % state
+            leak = None
+            try:
+                leak = scan(text, text_binary(text), [n for w in want if w[3] for n in needles_of(w[1], "plaintext")])
+            except Exception:   # noqa
+                pass
+            return ("fail-open", why + ("; " + leak if leak else "") + "; output starts " + repr(text[:80]))
+        if emitted or created:
+            return ("fail-open", "writing raised %s but output was produced: created=%r writes=%r text=%r" % (
+                res[1], created, nwrites, text[:80]))
+        return None
+    if res[0] != "ok":
+        if res[1] == "EOverflow":
             return None
-        if res[0] != "ok":
-            if res[1] == "EOverflow":
-                return None
-            return ("writer-raised", "write_file raised %s in plug-in state %s" % (res[1], state))
-        try:
-            binary = text_binary(text)
-            blocks_found, entries, _ = parse_container(binary)
-        except Exception as e:   # noqa
-            return ("layout", "written file cannot be parsed by the independent parser: %r" % (e,))
-        if len(entries) != len(want):
-            return ("layout", "%d directory entries for %d components" % (len(entries), len(want)))
-        for i, ((adr, total, alen, tags), (desc, blob, dlen, enc)) in enumerate(zip(entries, want)):
-            stored = binary[adr:adr + total]
+        return ("writer-raised", "write_file raised %s in plug-in state %s" % (res[1], state))
+    try:
+        binary = text_binary(text)
+        blocks_found, entries, _ = parse_container(binary)
+    except Exception as e:   # noqa
+        return ("layout", "written file cannot be parsed by the independent parser: %r" % (e,))
+    if len(entries) != len(want):
+        return ("layout", "%d directory entries for %d components" % (len(entries), len(want)))
+    for i, ((adr, total, alen, tags), (desc, blob, dlen, enc)) in enumerate(zip(entries, want)):
+        stored = binary[adr:adr + total]
+        if enc:
+            expect = indep_cbc(key, zero_padded(blob))
+            if stored != expect:
+                how = "the zero-padded plaintext" if stored == zero_padded(blob) else \
+                      "the plaintext" if stored == blob else stored.hex()
+                return ("stored-not-ciphertext",
+                        "component %d (len %d): payload at %d..%d is %s, expected AES-128-CBC(key, IV=0, zero-padded content) = %s" % (
+                            i, len(blob), adr, adr + total, how, expect.hex()))
+            if alen != dlen or total != len(expect):
+                return ("stored-lengths", "component %d: stored length %d declared %d, expected %d / %d" % (
+                    i, total, alen, len(expect), dlen))
+    # read back with the key
+    rstream = io.StringIO(text)
+    if c["framing"] == "bec2":
+        rexts = exts + [ConfigSecurityCodeEncryptor(c["code"])]
+        rd = run_impl(lambda: Bec2File.read_file(rstream, rexts, True))
+        got_file = rd[1].bf3file if rd[0] == "ok" else None
+        if rd[0] == "ok" and rd[1].session_key != key:
+            return ("recover", "BEC2 read returned session key %s" % rd[1].session_key.hex())
+    else:
+        rd = run_impl(lambda: Bf3File.read_file(rstream, True, key))
+        got_file = rd[1] if rd[0] == "ok" else None
+    if rd[0] != "ok":
+        return ("recover", "reading the written file with the same key raised %s" % rd[1])
+    if len(got_file.components) != len(want):
+        return ("recover", "%d components read, %d written" % (len(got_file.components), len(want)))
+    for i, (g, (desc, blob, dlen, enc)) in enumerate(zip(got_file.components, want)):
+        if dict(g.description) != desc or g.actual_len != dlen:
+            return ("recover", "component %d: tags/declared length %r/%r, written %r/%r" % (
+                i, dict(g.description), g.actual_len, desc, dlen))
+        if enc:
+            if bytes(g.blob[:dlen]) != blob[:dlen] or len(g.blob) < dlen:
+                return ("recover", "component %d (len %d, declared %d): read back %s, original %s" % (
+                    i, len(blob), dlen, bytes(g.blob).hex(), blob.hex()))
+            if not g.encrypt_by_session_key:
+                return ("recover", "component %d read back without the encryption flag" % i)
+        elif bytes(g.blob) != blob:
+            return ("recover", "plain component %d changed: %s -> %s" % (i, blob.hex(), bytes(g.blob).hex()))
+    if c.get("scan"):
+        needles = []
+        for (desc, blob, dlen, enc) in want:
             if enc:
-                expect = indep_cbc(key, zero_padded(blob))
-                if stored != expect:
-                    how = "the zero-padded plaintext" if stored == zero_padded(blob) else \
-                          "the plaintext" if stored == blob else stored.hex()
-                    return ("stored-not-ciphertext",
-                            "component %d (len %d): payload at %d..%d is %s, expected AES-128-CBC(key, IV=0, zero-padded content) = %s" % (
-                                i, len(blob), adr, adr + total, how, expect.hex()))
-                if alen != dlen or total != len(expect):
-                    return ("stored-lengths", "component %d: stored length %d declared %d, expected %d / %d" % (
-                        i, total, alen, len(expect), dlen))
-        # read back with the key
-        rstream = io.StringIO(text)
+                needles += needles_of(blob, "configuration plaintext")
+        needles += needles_of(key, "session key") + ([("session key", 0, key)] if len(set(key)) >= 6 else [])
         if c["framing"] == "bec2":
-            rexts = exts + [ConfigSecurityCodeEncryptor(c["code"])]
-            rd = run_impl(lambda: Bec2File.read_file(rstream, rexts, True))
-            got_file = rd[1].bf3file if rd[0] == "ok" else None
-            if rd[0] == "ok" and rd[1].session_key != key:
-                return ("recover", "BEC2 read returned session key %s" % rd[1].session_key.hex())
-        else:
-            rd = run_impl(lambda: Bf3File.read_file(rstream, True, key))
-            got_file = rd[1] if rd[0] == "ok" else None
-        if rd[0] != "ok":
-            return ("recover", "reading the written file with the same key raised %s" % rd[1])
-        if len(got_file.components) != len(want):
-            return ("recover", "%d components read, %d written" % (len(got_file.components), len(want)))
-        for i, (g, (desc, blob, dlen, enc)) in enumerate(zip(got_file.components, want)):
-            if dict(g.description) != desc or g.actual_len != dlen:
-                return ("recover", "component %d: tags/declared length %r/%r, written %r/%r" % (
-                    i, dict(g.description), g.actual_len, desc, dlen))
-            if enc:
-                if bytes(g.blob[:dlen]) != blob[:dlen] or len(g.blob) < dlen:
-                    return ("recover", "component %d (len %d, declared %d): read back %s, original %s" % (
-                        i, len(blob), dlen, bytes(g.blob).hex(), blob.hex()))
-                if not g.encrypt_by_session_key:
-                    return ("recover", "component %d read back without the encryption flag" % i)
-            elif bytes(g.blob) != blob:
-                return ("recover", "plain component %d changed: %s -> %s" % (i, blob.hex(), bytes(g.blob).hex()))
-        if c.get("scan"):
-            needles = []
-            for (desc, blob, dlen, enc) in want:
-                if enc:
-                    needles += needles_of(blob, "configuration plaintext")
-            needles += needles_of(key, "session key") + ([("session key", 0, key)] if len(set(key)) >= 6 else [])
-            if c["framing"] == "bec2":
-                needles += needles_of(c["code"], "security code") + needles_of(c["ck"], "customer key")
-                needles += [("customer key", 0, c["ck"])] if len(set(c["ck"])) >= 6 else []
-                needles += needles_of(c["wkey"], "wrapping key")
-            hit = scan(text, binary, needles)
-            if hit:
-                return ("needle", hit)
+            needles += needles_of(c["code"], "security code") + needles_of(c["ck"], "customer key")
+            needles += [("customer key", 0, c["ck"])] if len(set(c["ck"])) >= 6 else []
+            needles += needles_of(c["wkey"], "wrapping key")
+        hit = scan(text, binary, needles)
+        if hit:
+            return ("needle", hit)
     return None
+
+
+
+# ---------------------------------------------------------------------------
+# object histories: one object is written, changed in place, written again
+
+HIST_LENS = [1, 7, 9, 15, 16, 17, 31, 32, 33, 48]
+
+
+def hist_blob(r, ln=None):
+    ln = ln if ln is not None else r.choice(HIST_LENS)
+    b = bytes(r.randrange(256) for _ in range(ln))
+    z = min(ln, r.choice([0, 0, 1, 2, 16]))
+    return b[:ln - z] + bytes(z) if r.random() < 0.9 else bytes(ln)
+
+
+def gen_history(r, framing):
+    """initial components (at least one encrypted) and 2..5 in-place changes; the file is written
+    and checked after every change"""
+    comps = []
+    for _ in range(r.choice([1, 2, 2, 3])):
+        if r.random() < 0.7:
+            comps.append(({0xC3: bytes([r.choice([2, 3])]), 0xC2: b"\x02"}, hist_blob(r), None, True))
+        else:
+            comps.append(rplain(r))
+    if not any(c[3] for c in comps):
+        comps[r.randrange(len(comps))] = ({0xC3: b"\x03", 0xC2: b"\x02"}, hist_blob(r), None, True)
+    ops = []
+    n = len(comps)
+    for _ in range(r.choice([2, 3, 3, 5])):
+        kind = r.choice(["blob", "blob", "blob", "samelen", "alen", "desc", "swap", "plain", "enc", "key", "otherfile", "setcfg"])
+        i = r.randrange(n)
+        if kind == "blob":
+            ops.append(("blob", i, hist_blob(r), None))
+        elif kind == "samelen":
+            ops.append(("samelen", i, r.randrange(1 << 30)))     # new content of the old length
+        elif kind == "alen":
+            ops.append(("alen", i, r.randrange(1, 64)))
+        elif kind == "desc":
+            ops.append(("desc", i, r.choice([0xC1, 0xC5, 0xC8, 0x01]), bytes(r.randrange(256) for _ in range(r.choice([0, 1, 2])))))
+        elif kind == "swap":
+            ops.append(("swap", i, r.randrange(n)))
+        elif kind in ("plain", "enc"):
+            ops.append((kind, i))
+        elif kind == "key":
+            ops.append(("key", keys_of(r)[r.randrange(3)]))
+        elif kind == "otherfile":
+            ops.append(("otherfile", i, keys_of(r)[1], r.random() < 0.5))
+        else:
+            ops.append(("setcfg", gen_cfg(r, True)))
+    h = {"framing": framing, "comps": comps, "ops": [list(o) for o in ops], "key": keys_of(r)[1 + r.randrange(2)],
+         "comments": {"Creator": "verif"}}
+    if framing == "bec2":
+        h.update(wkey=bytes(r.randrange(256) for _ in range(16)), ck=bytes(r.randrange(256) for _ in range(10)),
+                 code=bytes(r.randrange(256) for _ in range(8)), version=r.randrange(256))
+    return h
+
+
+def apply_op(f, op, rng_for_samelen=None):
+    """change the object in place; returns ('key', k) / ('otherfile', comp, key, first) / None"""
+    import random
+    from bec2format.bf3file import Bf3File    # noqa
+    comps = f.components
+    kind = op[0]
+    if kind in ("blob", "samelen", "alen", "desc", "swap", "plain", "enc", "otherfile") and not comps:
+        return None
+    if kind == "blob":
+        c = comps[op[1] % len(comps)]
+        c.blob = op[2]
+        c.actual_len = op[3] or len(op[2])
+    elif kind == "samelen":
+        c = comps[op[1] % len(comps)]
+        rr = random.Random(op[2])
+        c.blob = bytes(rr.randrange(256) for _ in range(len(c.blob)))
+    elif kind == "alen":
+        c = comps[op[1] % len(comps)]
+        c.actual_len = 1 + op[2] % len(c.blob)
+    elif kind == "desc":
+        comps[op[1] % len(comps)].description[op[2]] = op[3]
+    elif kind == "swap":
+        i, j = op[1] % len(comps), op[2] % len(comps)
+        comps[i], comps[j] = comps[j], comps[i]
+    elif kind == "plain":
+        c = comps[op[1] % len(comps)]
+        c.encrypt_by_session_key = False
+        c.description.pop(0xC2, None)
+    elif kind == "enc":
+        c = comps[op[1] % len(comps)]
+        c.encrypt_by_session_key = True
+        c.description[0xC2] = b"\x02"
+    elif kind == "key":
+        return ("key", op[1])
+    elif kind == "otherfile":
+        return ("otherfile", comps[op[1] % len(comps)], op[2], op[3])
+    elif kind == "setcfg":
+        if run_impl(lambda: f.set_config(dict(op[1])))[0] != "ok":
+            return ("skip",)
+    return None
+
+
+def run_history(h):
+    """the history on the real implementation with the real plug-in: after every change the file
+    is written again and must hold the CURRENT content.  Returns None or (kind, detail)."""
+    from bec2format.bf3file import Bf3File
+    key = h["key"]
+    with registered_cls(real_variant("registered")):
+        f = B.build(h.get("comments", {}), [tuple(x) for x in h["comps"]])
+        c = dict(h)
+        pair = None
+        if h["framing"] == "bec2":
+            pair = build_bec2(f, [("cust", h["wkey"], h["ck"], 0), ("update", h["code"], h["version"])], key)
+        v = _check_file(f, c, key, "registered", pair)
+        if v:
+            return (v[0], "write #1: " + v[1])
+        for n, op in enumerate(h["ops"], 2):
+            op = tuple(op)
+            what = apply_op(f, op)
+            if what and what[0] == "skip":
+                continue
+            if what and what[0] == "key":
+                key = what[1]
+                if pair is not None:
+                    pair[0].session_key = key
+            if what and what[0] == "otherfile":
+                # the same component object inside a second file written with another key
+                comp, key2, first = what[1], what[2], what[3]
+                f2 = Bf3File({"Creator": "second"}, [comp] if first else [B.build({}, [rplain_fixed()]).components[0], comp])
+                v = _check_file(f2, {"framing": "bf3"}, key2)
+                if v:
+                    return (v[0] + "-history", "write #%d (same component object in a second file, other key): %s" % (n, v[1]))
+            v = _check_file(f, c, key, "registered", pair)
+            if v:
+                return (v[0] + "-history", "write #%d after %s: %s" % (n, op[0], v[1]))
+    return None
+
+
+def rplain_fixed():
+    return ({0xC3: b"\x02"}, b"firmware", None, False)
 
 
 def contents(r):
@@ -747,6 +939,19 @@ def search(ctx):
         fr = "bec2" if (i // 5) % 2 else "bf3"
         go(mk_case(r, fr, content if i % 4 else None, None, k, state=state, sink="path" if (i // 10) % 2 else "stream",
                    cfg=gen_cfg(r, True) if i % 4 == 0 else None), "state:%s/%s" % (state, fr))
+    # 5. object histories: write, change a component in place (content, declared length, tags,
+    #    flag, order, key, same object in a second file, set_config again), write again
+    for i in range(ctx.budget(150, 3000) * (4 if hard else 1)):
+        h = gen_history(r, "bec2" if i % 2 else "bf3")
+        ctx.case(("h", repr(h)))
+        ctx.dist["s:history/%s" % h["framing"]] += 1
+        try:
+            v = run_history(h)
+        except Exception as e:   # noqa
+            import traceback
+            v = ("crash", "checking crashed: %r %s" % (e, traceback.format_exc()[-600:]))
+        if v:
+            ctx.fail(v[0], dict(h, history=True), v[1])
     ctx.extra["rule"] = (
         "correspondence (toy cipher through register_AES128): files with encrypted components (write_file, to_binary at offsets, "
         "read_file), Bf3File.set_config then write/read, Bec2File.to_binary/write_file with customer-key / update / unknown auth "
@@ -759,7 +964,10 @@ def search(ctx):
         "independent AES-128-CBC(key, IV 0, zero-padded content), lengths, read back == original up to the declared length, "
         "needle scan (8-byte windows of plaintext / session key / security code / customer key / wrapping key with >= 6 distinct "
         "bytes) over binary and text, and for plug-in states {unregistered, encrypt raising, mac raising, raising under the session "
-        "key}: writing raises, no write() call / no file created. non-trivial = has an encrypted component; distinct by full input")
+        "key}: writing raises, no write() call / no file created; object histories (one object written, changed in place - content, "
+        "declared length, tags, flag, component order, key, the same component object in a second file with another key, set_config "
+        "again - and written again: every write must hold the CURRENT content; the same histories in the correspondence against the "
+        "stateless model). non-trivial = has an encrypted component; distinct by full input")
 
 
 def _unjson(x):
@@ -780,6 +988,14 @@ def replay(ctx, data):
         print(f["kind"], f["detail"][:400])
         try:
             c = _unjson(f["data"])
+            if c.get("history"):
+                c["comps"] = [({int(k): v for k, v in d.items()}, b, a, e) for d, b, a, e in c["comps"]]
+                c["ops"] = [[o[0]] + [({ast.literal_eval(k): v for k, v in x.items()} if isinstance(x, dict) else x) for x in o[1:]]
+                            for o in c["ops"]]
+                v = run_history(c)
+                print(" replay on %s:" % vlib.REPO, v)
+                rc |= bool(v)
+                continue
             if "comps" not in c:
                 print(" replay on %s: oracle self-test ->" % vlib.REPO, oracle_selftest())
                 rc |= not oracle_selftest()
